@@ -57,7 +57,7 @@ chk("C03", "exploration", "property-based testing (Hypothesis): generated switch
     "once per real change, at change+hold iff the state was held, mid-interval registrations at the original deadline, "
     "Configured events with a hold time (event|ms, with and without unit) are modelled as implicit timed handlers. "
     "never after removal) and checks states and is_active/is_inactive answers. Search, not proof.",
-    "ignore_window_ms = 0, no muting; an operation exactly at a deadline may land on either side.",
+    "ignore_window_ms = 0; a muted switch follows the hardware, drops pending hold-time entries and calls nobody; an operation exactly at a deadline may land on either side.",
     "DESIGN.md §4 C03")
 chk("C16", "exploration", "property-based testing (Hypothesis): differential evaluation against CPython's operators + subscription histories; plus coverage-guided fuzzing (atheris/libFuzzer driving the same generators and oracles)",
     "Generated expression trees over the supported grammar are rendered and evaluated by Raw/Int/Float/Bool/String "
